@@ -3128,6 +3128,53 @@ static void PrintDebSymbols_PNode(PTree Tree, void* pData) {
     ChkIO(ErrNum_FileWriteError);
 }
 
+#ifdef FLAMEWING_ASL_VERIF
+/* hash over (name, section, type, value) of all global symbols, for the
+   verification pass hook in as.c */
+static void asl_verif_symbol_hash_node(PTree Tree, void* pData) {
+    PSymbolEntry   Node = (PSymbolEntry)Tree;
+    unsigned long* pH   = (unsigned long*)pData;
+    unsigned long  h    = *pH;
+    char const*    p;
+    size_t         z;
+
+#    define ASL_VERIF_MIX(b) h = ((h ^ (unsigned long)(unsigned char)(b)) * 16777619UL) & 0xfffffffful
+    for (p = Node->Tree.Name; *p; p++) {
+        ASL_VERIF_MIX(*p);
+    }
+    ASL_VERIF_MIX(Node->Tree.Attribute & 0xff);
+    ASL_VERIF_MIX(Node->SymWert.Typ);
+    switch (Node->SymWert.Typ) {
+    case TempInt:
+        for (z = 0; z < sizeof(Node->SymWert.Contents.Int); z++) {
+            ASL_VERIF_MIX((Node->SymWert.Contents.Int >> (8 * z)) & 0xff);
+        }
+        break;
+    case TempFloat:
+        for (z = 0; z < sizeof(Node->SymWert.Contents.Float); z++) {
+            ASL_VERIF_MIX(((unsigned char const*)&Node->SymWert.Contents.Float)[z]);
+        }
+        break;
+    case TempString:
+        for (z = 0; z < Node->SymWert.Contents.str.len; z++) {
+            ASL_VERIF_MIX(Node->SymWert.Contents.str.p_str[z]);
+        }
+        break;
+    default:
+        break;
+    }
+#    undef ASL_VERIF_MIX
+    *pH = h;
+}
+
+unsigned long asl_verif_symbol_hash(void) {
+    unsigned long h = 2166136261UL;
+
+    IterTree((PTree)FirstSymbol, asl_verif_symbol_hash_node, &h);
+    return h;
+}
+#endif /* FLAMEWING_ASL_VERIF */
+
 void PrintDebSymbols(FILE* f) {
     TDebContext DebContext;
 
